@@ -1196,11 +1196,14 @@ class CSSMatch(_DocumentNav):
                         check = False
                         has_name = False
                         for k, v in self.iter_attributes(child):
-                            if util.lower(k) == 'type' and util.lower(v) == 'radio':
+                            # Attribute names and the `type` value are only case insensitive in non-XML documents,
+                            # just as they are for the attribute selectors that picked the element being evaluated.
+                            attr = k if self.is_xml else util.lower(k)
+                            if attr == 'type' and (v if self.is_xml else util.lower(v)) == 'radio':
                                 is_radio = True
-                            elif util.lower(k) == 'name' and v == name:
+                            elif attr == 'name' and v == name:
                                 has_name = True
-                            elif util.lower(k) == 'checked':
+                            elif attr == 'checked':
                                 check = True
                             if is_radio and check and has_name and get_parent_form(child) is form:
                                 checked = True
